@@ -134,7 +134,13 @@ def pmap(fn, items, chunksize=None, nworkers=None):
     if chunksize is None:
         chunksize = max(1, len(items) // (n * 8))
     with ctx.Pool(n) as pool:
-        return pool.map(fn, items, chunksize=chunksize)
+        out, t0, last = [], time.time(), time.time()
+        for r in pool.imap(fn, items, chunksize=chunksize):
+            out.append(r)
+            if time.time() - last > 120:          # long runs: a heartbeat on stderr (stdout carries the verdict lines only)
+                last = time.time()
+                print(f"[gverif] {len(out)}/{len(items)} work items done after {int(last - t0)} s", file=sys.stderr, flush=True)
+        return out
 
 
 class Timer:
